@@ -22,13 +22,6 @@ def shrink(case):
     return C.shrink_case(case)
 
 
-def equal_costs(r):
-    """decidable classifier of finding C02-F4: all discretised rule costs are equal and some rule has
-    arguments (then int(self.M) = 0 and the first push divides by maxi = 0)"""
-    cs = {c for row in r["costs"].values() for c in row.values()}
-    return len(cs) == 1 and any(args for rs in r["g"].rules.values() for args, _ in rs.values())
-
-
 def set_failures(r, ys, fail):
     Y = [E.show(p) for p in ys]
     L = {E.show(p) for p, _, _ in r["lang"]}
@@ -48,7 +41,7 @@ def check(case, M):
     if "trivial" in r:
         return {"key": C.key_of(case), "nontrivial": False, "tags": ["trivial:" + r["trivial"]], "failures": []}
     failures = []
-    fid = "C02-F4" if equal_costs(r) else None
+    fid = C.raise_finding(r, "C02")
 
     def fail(kind, what, detail):
         f = {"kind": kind, "what": what, "detail": detail}
@@ -65,7 +58,7 @@ def check(case, M):
         set_failures(r, r["ys"], fail)
     tags = C.base_tags(case, r)
     if fid:
-        tags.append("all-costs-equal(C02-F4 region)")
+        tags.append(f"raises({fid} region)")
     ncost = len({c for _, c, _ in r["lang"]})
     nontrivial = len(r["lang"]) >= 10 and ncost >= 2 and ncost < len(r["lang"])
     return {"key": C.key_of(case), "nontrivial": nontrivial, "tags": tags, "failures": failures, "sample": C.sample_of(case, r)}
